@@ -84,12 +84,12 @@ def EM(kinds, names=False):
 
 
 PROPS = {
-    "C01": P([("fields", "struct_copy_pairing", {}), RECD, FULLIT, TT_WE, TT_AUX, CONSTEXPR, ("emit", "section_order", {}), ("nopanic", "payload_exh_rule", {}), SCRATCH] + REIDX,
+    "C01": P([FRESH, ("fields", "struct_copy_pairing", {}), RECD, FULLIT, TT_WE, TT_AUX, CONSTEXPR, ("emit", "section_order", {}), ("nopanic", "payload_exh_rule", {}), SCRATCH] + REIDX,
              "necessary-condition lint: every value type of the stated profile survives the reader→writer tables; constant-expression operators are re-emitted as themselves; sections are emitted in binary-format order; every payload kind has a handler",
              "R-TYPE-TABLE (wasm_encoder writer), aux tables, R-CONSTEXPR-TABLE, R-SECTION-ORDER, R-PAYLOAD-EXH, R-LOOP-SCRATCH, R-REFERS-EXH (the updaters run on every encode, with identity maps on an unmodified module: each must write a looked-up index back to the operand it was looked up for).",
              "that the whole output validates for every module.",
              "abstract interpretation of match tables over a finite type domain; call-order check"),
-    "C02": P([EMITALL, RECD, FULLIT, TT_WE, TT_AUX, CONSTEXPR, ("fields", "types_cover", {}), ("fields", "name_pairing", {}), ("fields", "struct_copy_pairing", {}), ("fields", "custom_sections", {}), IMPORD, SCRATCH, TFLOW] + REIDX,
+    "C02": P([FRESH, EMITALL, RECD, FULLIT, TT_WE, TT_AUX, CONSTEXPR, ("fields", "types_cover", {}), ("fields", "name_pairing", {}), ("fields", "struct_copy_pairing", {}), ("fields", "custom_sections", {}), IMPORD, SCRATCH, TFLOW] + REIDX,
              "necessary conditions of content preservation: no type/const table changes a value, no Types field is dropped by the encoder, every name subsection and custom section is re-emitted from where it was stored, struct→struct copies pair like-named fields",
              "R-TYPE-TABLE, R-CONSTEXPR-TABLE, R-FIELDS-COVER(Types), R-NAME-PAIRING, R-COPY-PAIRING, R-CUSTOM-SECTIONS, R-IMPORT-ORDINAL, R-LOOP-SCRATCH, R-REFERS-EXH, R-TYPE-FIELD-FLOW.",
              "equality of decoded forms on every input.",
@@ -140,7 +140,7 @@ PROPS = {
              "R-COUPLED-IMPORT-ORDER, R-COUNTER-INV, R-CONVERT-FLOW, R-RECALC-SET, R-REORG-INV.",
              "redirect semantics over histories.",
              "abstract counter deltas per path + provenance"),
-    "C12": P([("opcode", "opcode_table", {}), ("emit", "name_index", {}), WALK, ("misc", "builder_flow", {}), ("mutators", "counter_inv", {}), ("mutators", "swap_flows", {}), TT_WE, ("mutators", "locals_owner", {}), LCG],
+    "C12": P([("opcode", "opcode_table", {}), ("emit", "name_index", {}), WALK, ("misc", "builder_flow", {}), ("mutators", "counter_inv", {}), ("mutators", "swap_flows", {}), TT_WE, ("mutators", "locals_owner", {}), LCG] + REIDX,
              "necessary: builder hand-over order and arguments, sibling agreement of the finish variants, counter invariant, no same-typed parameter swaps, type table",
              "R-BUILDER-FLOW, R-COUNTER-INV, R-SWAP, R-TYPE-TABLE, R-LOCALS (declared locals), R-LOCAL-COUNT-GUARD.",
              "decoded equality.",
